@@ -30,7 +30,6 @@ deriving DecidableEq, Repr, Inhabited
 
 /-- Unplanned Python exceptions (and `Fatal`, which ends the process as well). -/
 inductive Err
-  | structError                 -- `mux.send(None, …)`: `struct.pack` of `None`            (F2)
   | unboundLocal                -- `UdpProxy.callback`: `peer` used in the `except` branch (F3)
   | osError (errno : Nat)       -- `DnsProxy.try_send`: `sock.connect` outside the `try`   (F4)
   | keyError (what : String)    -- `del d[k]` / `d[k]` with `k` missing
@@ -40,15 +39,15 @@ inductive Err
   | fatal (what : String)       -- `raise Fatal(…)`
 deriving DecidableEq, Repr
 
+/-- Exception class only (what the harness can see of the real exception). -/
 def Err.tag : Err → String
-  | .structError => "structError"
   | .unboundLocal => "unboundLocal"
   | .osError n => s!"osError.{n}"
-  | .keyError w => s!"keyError.{w}"
-  | .valueError w => s!"valueError.{w}"
-  | .typeError w => s!"typeError.{w}"
-  | .assertion w => s!"assertion.{w}"
-  | .fatal w => s!"fatal.{w}"
+  | .keyError _ => "keyError"
+  | .valueError _ => "valueError"
+  | .typeError _ => "typeError"
+  | .assertion _ => "assertion"
+  | .fatal _ => "fatal"
 
 /-! ### Python dicts as association lists -/
 
@@ -169,7 +168,6 @@ structure Cfg where
   dnsHorizonS : Nat := Generated.CLIENT_DNS_TIMEOUT
   udpHorizonS : Nat := Generated.CLIENT_UDP_TIMEOUT
   recvMax : Nat := Generated.CLIENT_DNS_RECV
-  guardNoId : Bool := false          -- `ondns`/`onaccept_udp` test `next_channel()`'s result
   -- server
   nslist : List Bytes := []           -- name servers in the remote host's resolv.conf
   toNs : Option (Bytes × Nat) := none -- `--to-ns host@port`
